@@ -16,6 +16,7 @@
 -/
 import Golib.Step.Interp
 import Golib.Step.Setters
+import Golib.Step.Api
 import Golib.Step.Layouts
 import Golib.Step.ValueInst
 import Golib.Gen.C08
@@ -175,6 +176,43 @@ theorem setters_agree :
     Gen.C08.setters.map (fun p => (p.1, parseSetter p.2)) = setterTable.map (fun p => (p.1, some p.2)) := by decide
 
 example : parseSetter [.asg "Steps" "[]byte" "append(Steps, step.ToBytesStep(local1)...)"] = none := by decide
+
+/-! ### accessors and constructors, read off the source -/
+
+/-- what a regenerated accessor entry (receiver, kind, field) denotes -/
+def parseAcc (recv kind f : String) : Option Acc :=
+  if kind = "get" then some (.get (qualField recv f))
+  else if kind = "set" then some (.set (qualField recv f))
+  else if kind = "or" then some (.orByte (qualField recv f))
+  else if kind = "bit" then some (.bit (qualField recv f))
+  else if kind = "const" ∧ f = "0" then some (.const 0)
+  else none
+
+/-- every exported one-line method of `AbstractStep` and of the eleven step types that is not a wire method, a
+    type code or a builder denotes exactly what the model's `accessorTable` says (getter of which field, setter of
+    which field, or-ing setter, bit test, constant 0) — and there are no others.  (`GetElapsed` returning another
+    field, a `SetParent` that also touches `Index`, a type overriding `SetTrue` … change the regenerated entry.) -/
+theorem accessors_agree :
+    (∀ e ∈ Gen.C08.accessors, (parseAcc e.1 e.2.2.1 e.2.2.2).isSome ∧
+        accessorTable.lookup (e.1, e.2.1) = parseAcc e.1 e.2.2.1 e.2.2.2) ∧
+    Gen.C08.accessors.length = accessorTable.length ∧
+    (Gen.C08.accessors.map (fun e => (e.1, e.2.1))).Nodup := by decide
+
+def initKey : Option Val → String × Int
+  | none => ("arg", 0)
+  | some (.i v) => ("int", v)
+  | some (.b []) => ("empty", 0)
+  | _ => ("other", 0)
+
+/-- every constructor of the covered types allocates the type and sets the fields the model's `ctorTable` says
+    (`NewHttpcStepX`: Version 2; `NewHttpcStepXVersion`, `NewMessageStepXWithStartTime`: their argument;
+    `NewProfileStepSplitPack`: an empty step blob; all others: the zero object) — and there are no others -/
+theorem ctors_agree :
+    (∀ e ∈ Gen.C08.ctors,
+        (ctorTable.lookup e.1).map (fun p => (p.1, p.2.map (fun i => (i.1, initKey i.2)))) = some e.2) ∧
+    Gen.C08.ctors.length = ctorTable.length ∧ (Gen.C08.ctors.map (·.1)).Nodup := by decide
+
+example : parseAcc "DBCStep" "unknown" "return this.Elapsed + 1" = none := by decide
 
 /-- non-vacuity: the interpreters do not accept everything — a writer skeleton with a call they do not
     know, or one that stops inside a section, denotes nothing -/
